@@ -42,9 +42,11 @@ META = {
                 text="Decides that the resolve/copy stages of the front end construct every field of every model struct from the "
                      "same-named field of the source (no dropped, swapped or defaulted field). Not the token-consuming parser.",
                 ref="5/C07"),
-    "C08": dict(tech="static analysis: vocabulary/table agreement between generator and attribute parser (syn + MIR)",
-                text="Decides that every keyword the generator emits is accepted by the attribute parser, descriptor names and "
-                     "constraint constants exist, and constants are taken from the fields they describe.", ref="5/C08"),
+    "C08": dict(tech="static analysis: printer/parser table agreement over MIR string tests and match arms (word -> variant built), inverse-table check of the model conversions, constant provenance of printed constraints (syn templates + MIR origins)",
+                text="Decides that for every asn::Type / Rust shape / tag class the generator can print, the attribute parser's arm "
+                     "for the printed word builds the same variant; that into_asn inverts definition_type_to_rust_type; and that each "
+                     "printed bound / flag / count comes from the getter it names. Does not decide equality of the re-read model for "
+                     "every argument shape.", ref="5/C08"),
     "C09": dict(tech="static analysis: keyword table inclusion (syn const arrays) and who-may-print rule",
                 text="Decides that the generator's keyword escape table covers every Rust keyword that can be an ASN.1 identifier "
                      "and that field names are printed through the escaping helper.", ref="5/C09"),
